@@ -21,6 +21,10 @@ Proof. reflexivity. Qed.
 Lemma nearest_y_spec : forall p, nearest_y p = inject_Z (round_half_even p).
 Proof. reflexivity. Qed.
 
+(* ---- positions the WCS cannot project (NaN) are skipped before int(round()) (false before /repo 850a279) *)
+Lemma skips_unprojectable_spec : skips_unprojectable = true.
+Proof. reflexivity. Qed.
+
 (* ---- accept test on integer pixel indices *)
 Lemma rejected_spec : forall x y r c df rf bk,
   rejected (inject_Z x) (inject_Z y) (inject_Z r) (inject_Z c) df rf bk =
@@ -107,6 +111,21 @@ Lemma shift_x_spec : forall a b c d, shift_x a b c d = a.
 Proof. reflexivity. Qed.
 Lemma shift_y_spec : forall a b c d, shift_y a b c d = c.
 Proof. reflexivity. Qed.
+
+(* ---- limits of sx, sy: the catalogue shape is always inside them, so lmfit never moves it when the
+   parameter is added (false for the leaf before 318103b: Refuted/C05_shape_clipped.v) *)
+Lemma shape_limits_spec : forall sx sy beam_a beam_b k, 0 <= sx -> 0 <= sy ->
+  shape_lower sx sy beam_a beam_b k <= sx /\ sx <= shape_upper sx sy beam_a beam_b k /\
+  shape_lower sx sy beam_a beam_b k <= sy /\ sy <= shape_upper sx sy beam_a beam_b k.
+Proof.
+  intros sx sy beam_a beam_b k Hx Hy. unfold shape_lower, shape_upper.
+  set (m := qmin (qmin sx sy) (beam_b * k)). set (M := qmax sy sx).
+  assert (H1 : m <= sx) by (eapply Qle_trans; [apply qmin_le_l|apply qmin_le_l]).
+  assert (H2 : m <= sy) by (eapply Qle_trans; [apply qmin_le_l|apply qmin_le_r]).
+  assert (H3 : sx <= M) by apply qmax_ge_r.
+  assert (H4 : sy <= M) by apply qmax_ge_l.
+  repeat split; lra.
+Qed.
 
 (* ---- vary table and copy-back tests *)
 Lemma vary_amp_spec : forall st, vary_amp st = true.
